@@ -246,7 +246,6 @@ macro_rules! em_harness {
 em_harness!(c05_em_step_insert, Some(0), SECS_MAX);
 em_harness!(c05_em_step_update, Some(1), SECS_MAX);
 em_harness!(c05_em_step_remove, Some(2), SECS_MAX);
-em_harness!(probe_em_update_small, Some(1), 1 << 16);
 
 harness! {
     [kani::unwind(5),
